@@ -4,7 +4,10 @@ framework does NOT claim (C01-C05, C07, ...), then run ALL FOUR claimed checks a
 The expected result is silence (exit 0) unless the change also breaks a claimed property,
 which is judged by hand and recorded in meta.json ("judgement").
 
-usage: crossprop.py <agent-worktree> <k> <new-id> [--tier quick]
+usage: crossprop.py <agent-worktree> <k> <new-id> [--tier quick] [--harmless]
+
+--harmless: the change is meant to PRESERVE a claimed property (no demo); kept under harmless/<id>/,
+all four checks must exit 0.
 
 1. fresh worktree of /repo HEAD under /tmp; copy the agent's seeded/ dir in
 2. demo on the clean tree must pass
@@ -44,7 +47,8 @@ def main():
     log = {}
     try:
         shutil.copytree(os.path.join(agent_wt, "seeded"), os.path.join(wt, "seeded"))
-        demo = meta["demo_cmd"].replace(agent_wt, wt)
+        harmless = "--harmless" in sys.argv  # a property-PRESERVING change: no demo, the checks must stay silent
+        demo = meta.get("demo_cmd", "true").replace(agent_wt, wt)
         # normalise: the patch is applied / reverted by this script, prose is not shell
         demo = re.sub(r"git apply [^;&]*[;&]+", "", demo)
         demo = re.sub(r";?\s*git checkout -- src\b", "", demo)
@@ -76,6 +80,10 @@ def main():
         log["demo_with_patch"] = "fails (as it should)" if f2 else "PASSES (does not discriminate)"
         demo_excerpt = "\n".join([l for l in out2.splitlines() if "FAIL" in l or "Error" in l or "caret" in l][:8])
         confirmed = log["demo_on_clean_tree"] == "pass" and log["patch_applies"] and log["build_and_pinned_suite_with_patch"] == "ok" and f2
+        if harmless:
+            for k_ in ("demo_cmd_used", "demo_on_clean_tree", "demo_with_patch"):
+                log.pop(k_, None)
+            confirmed = log["patch_applies"] and log["build_and_pinned_suite_with_patch"] == "ok"
         log["confirmed"] = confirmed
         # all four claimed checks against the patched tree, side by side
         from concurrent.futures import ThreadPoolExecutor
@@ -97,7 +105,7 @@ def main():
         for p in caught:
             print("   ", p, res[p]["violation_classes"][:2])
         if confirmed or "--keep-anyway" in sys.argv:
-            dst = os.path.join(VERIF, "seeded_other", newid)
+            dst = os.path.join(VERIF, "harmless" if harmless else "seeded_other", newid)
             shutil.rmtree(dst, ignore_errors=True)
             os.makedirs(dst)
             for fn in os.listdir(src):
@@ -108,7 +116,8 @@ def main():
                     shutil.copy(a, dst)
             meta_out = dict(meta)
             meta_out["origin"] = f"sub-agent, worktree {agent_wt}, change {k}"
-            meta_out["demo_cmd"] = meta["demo_cmd"].replace(agent_wt, "<worktree>")
+            if "demo_cmd" in meta:
+                meta_out["demo_cmd"] = meta["demo_cmd"].replace(agent_wt, "<worktree>")
             meta_out["confirmation"] = log
             meta_out["alarms"] = caught
             meta_out["expected"] = "silence from C06, C11, C16, C19 unless the change also breaks one of them"
